@@ -1542,7 +1542,7 @@ FormatterToXML::writeNormalizedChars(
             accumContent(XalanUnicode::charLeftSquareBracket);
         }
         else if(isCData == true &&
-                i < end - 2 &&
+                i + 2 < end &&
                 XalanUnicode::charRightSquareBracket == c &&
                 XalanUnicode::charRightSquareBracket == ch[i + 1] &&
                 XalanUnicode::charGreaterThanSign == ch[ i + 2])
